@@ -50,6 +50,75 @@ static std::string c07_string(const Case &c) {
   }
   return "#" + std::to_string(evals) + "#" + bad;
 }
+// consecutive 64-byte blocks that are RELATED to each other (equal, byte-swapped per 32/64-bit word, byte-reversed, complemented, rotated):
+// a compression loop that remembers something about the previous block (a schedule cache, a "same as before" shortcut, an aliased
+// buffer) only shows on such content. Messages B|f(B), B|f(B)|B and f(B)|B|tail through both entry points, and f(B) hashed as a second
+// message on the SAME hasher object right after B.
+static void relate(int rel, const unsigned char *b, unsigned char *o) {
+  for (int i = 0; i < 64; i++) {
+    switch (rel) {
+    case 0: o[i] = b[i]; break;                          // identical
+    case 1: o[i] = b[(i & ~3) | (3 - (i & 3))]; break;   // every 32-bit word byte-swapped
+    case 2: o[i] = b[(i & ~7) | (7 - (i & 7))]; break;   // every 64-bit word byte-swapped
+    case 3: o[i] = b[63 - i]; break;                     // whole block reversed
+    case 4: o[i] = (unsigned char)~b[i]; break;          // complement
+    case 5: o[i] = b[(i + 1) & 63]; break;               // rotated by one byte
+    case 6: o[i] = b[(i + 4) & 63]; break;               // rotated by one word
+    default: o[i] = b[(i & ~1) | (1 - (i & 1))]; break;  // every 16-bit word byte-swapped
+    }
+  }
+}
+static std::string c07_blockpairs(const Case &c) {
+  int algo = (int)c.num("algo"), rel = (int)c.num("rel");
+  long evals = 0;
+  static const char *RN[8] = {"identical", "bswap32", "bswap64", "reversed", "complement", "rot1", "rot4", "bswap16"};
+  for (int base = 0; base < 4; base++) {
+    unsigned char B[64], F[64];
+    for (int i = 0; i < 64; i++) B[i] = base == 0 ? (unsigned char)(i * 131 + 7) : base == 1 ? (unsigned char)(0x80 | (i * 29)) : base == 2 ? (unsigned char)(i < 32 ? i : 0xff - i) : (unsigned char)((i * i) ^ 0x5a);
+    relate(rel, B, F);
+    for (int shape = 0; shape < 4; shape++) {
+      Bytes m;
+      auto app = [&](const unsigned char *p, size_t n) { m.insert(m.end(), p, p + n); };
+      if (shape == 0) { app(B, 64); app(F, 64); }
+      else if (shape == 1) { app(B, 64); app(F, 64); app(B, 64); }
+      else if (shape == 2) { app(F, 64); app(B, 64); app(B, 17); }
+      else { app(B, 64); app(B, 64); app(F, 64); app(F, 64); }
+      Bytes exp = ref::digest(algo, m);
+      std::string what = std::string(AN[algo]) + " of " + std::to_string(m.size()) + " bytes in which a block is followed by its " + RN[rel] + " image (base " + std::to_string(base) + ", shape " + std::to_string(shape) + ")";
+      { // string entry point
+        Hashmaster *h = hasher(algo);
+        Bytes out(40, 0xAA);
+        h->getStringHash(m.data(), (u32_t)m.size(), out.data());
+        evals++;
+        if (memcmp(out.data(), exp.data(), exp.size()) != 0) return "#" + std::to_string(evals) + "#digest-differs:related-blocks:" + AN[algo] + "|" + what + " (in memory) is not the standard digest";
+      }
+      { // file entry point
+        int fd = memfd_with(m);
+        FILE *fp = fopen_fd(fd, "rb");
+        Hashmaster *h = hasher(algo);
+        Bytes out(40, 0xAA);
+        filebuffer64 *fb = new filebuffer64(fp);
+        h->getFileHash(fb, out.data());
+        delete fb;
+        fclose(fp);
+        close(fd);
+        evals++;
+        if (memcmp(out.data(), exp.data(), exp.size()) != 0) return "#" + std::to_string(evals) + "#digest-differs:related-blocks:" + AN[algo] + "|" + what + " (streamed from a file) is not the standard digest";
+      }
+    }
+    { // two messages on one hasher object: B, then f(B)
+      Hashmaster *h = hasher(algo);
+      Bytes o1(40, 0xAA), o2(40, 0xAA);
+      h->getStringHash(B, 64, o1.data());
+      h->getStringHash(F, 64, o2.data());
+      evals += 2;
+      Bytes e1 = ref::digest(algo, Bytes(B, B + 64)), e2 = ref::digest(algo, Bytes(F, F + 64));
+      if (memcmp(o1.data(), e1.data(), e1.size()) != 0 || memcmp(o2.data(), e2.data(), e2.size()) != 0)
+        return "#" + std::to_string(evals) + "#digest-differs:related-messages:" + AN[algo] + "|" + AN[algo] + " of a 64-byte message hashed right after its " + RN[rel] + " image on the same hasher object is not the standard digest";
+    }
+  }
+  return "#" + std::to_string(evals) + "#";
+}
 static std::string c07_file(const Case &c) {
   int algo = (int)c.num("algo"), pre = (int)c.num("pre"), off = (int)c.num("off");
   size_t n = (size_t)c.num("len");
@@ -795,6 +864,9 @@ static void build(const Args &a, std::vector<Case> &out) {
     }
     if (sub == "all" || sub == "string")
       for (int algo = 0; algo < 3; algo++)
+        for (int rel = 0; rel < 8; rel++) add(Case().set("g", "blockpairs").set("algo", algo).set("rel", rel), std::string("related-blocks:") + AN[algo] + ":rel=" + std::to_string(rel));
+    if (sub == "all" || sub == "string")
+      for (int algo = 0; algo < 3; algo++)
         for (int n = 0; n <= 320; n++) add(Case().set("g", "str").set("algo", algo).set("len", n), std::string("string:") + AN[algo] + ":len%64=" + std::to_string(n % 64) + ":blocks=" + std::to_string(n / 64));
     if (sub == "all" || sub == "file")
       for (int algo = 0; algo < 3; algo++)
@@ -862,6 +934,7 @@ static void build(const Args &a, std::vector<Case> &out) {
 static std::string run_case(const Case &c) {
   std::string g = c.str("g");
   if (g == "str") return c07_string(c);
+  if (g == "blockpairs") return c07_blockpairs(c);
   if (g == "file") return c07_file(c);
   if (g == "big") return c07_big(c);
   if (g == "hmac") return c08_hmac(c);
